@@ -411,6 +411,24 @@ pub mod topic_handle {
 //@item src/topics/errors.rs enum PublishMessagesError drop-derive=thiserror::Error strip-attr=error
 //@item src/topics/topic_actor.rs struct PublishMessagesResponse
 //@item src/topics/topic_actor.rs enum TopicRequest
+    // the actor's dispatch: each request variant is handed to its handler (contracts above) and changes nothing else
+    impl TopicActor {
+        // ASSUMED contracts (bodies out of the verifier's reach: `async move` + JoinSet fan-out; `cloned` adapter):
+        // publishing and listing do not touch the subscription set, the deleted flag or the topic id
+        #[verifier::external_body]
+        async fn publish_messages(&mut self, messages: Vec<TopicMessage>) -> (r: Result<PublishMessagesResponse, PublishMessagesError>)
+            ensures final(self)@.subs == old(self)@.subs, final(self)@.deleted == old(self)@.deleted, final(self)@.tid == old(self)@.tid
+        { unimplemented!() }
+        #[verifier::external_body]
+        fn list_subscriptions(&self, paging: Paging) -> (r: Result<SubscriptionsPage, ListSubscriptionsError>)
+        { unimplemented!() }
+//@fn src/topics/topic_actor.rs TopicActor::receive tags=C11
+//@ # C11 / C01: one actor turn per request; only Attach / Remove / Delete change the subscription set, each exactly as
+//@ # its handler's contract says
+//@ ensures[C11] (match request { TopicRequest::RemoveSubscription { name, responder } => final(self)@ == (TopicView { subs: old(self)@.subs.remove(name), ..old(self)@ }), TopicRequest::Delete { responder } => (old(self)@.deleted ==> final(self)@ == old(self)@) && (!old(self)@.deleted ==> final(self)@ == (TopicView { subs: Map::empty(), deleted: true, ..old(self)@ })), TopicRequest::ListSubscriptions { paging, responder } => final(self)@ == old(self)@, TopicRequest::PublishMessages { messages, responder } => final(self)@.subs == old(self)@.subs && final(self)@.deleted == old(self)@.deleted, TopicRequest::AttachSubscription { subscription, responder } => final(self)@.deleted == old(self)@.deleted && final(self)@.next == old(self)@.next })
+//@ ensures[C01] (match request { TopicRequest::AttachSubscription { subscription, responder } => (old(self)@.subs.dom().contains(subscription.name) ==> final(self)@.subs =~= old(self)@.subs) && (!old(self)@.deleted && !old(self)@.subs.dom().contains(subscription.name) ==> final(self)@.subs =~= old(self)@.subs.insert(subscription.name, subscription)), _ => true })
+//@end
+    }
     /// TRUSTED (A-STUB): the mailbox field of `Topic` (its other fields are not read by the methods below)
     pub struct Topic { pub sender: mpsc::Sender<TopicRequest> }
     impl Topic {
